@@ -1522,3 +1522,23 @@ def r17_9(rep):
                       "the depfile write is not reached on every path (%s): bindings are still produced, the depfile is missing or stale"
                       % "; ".join(what), b.loc(c))
     rep.need(n >= 1, "functions between codegen::codegen and DepfileSpec::write")
+
+
+@RULES.rule("R17.10", "the depfile names the configured target: `Builder::depfile` stores its argument unchanged", floor=2)
+def r17_10(rep):
+    """`make` compares the target of the rule with the name of the file it was asked to build.  `Builder::depfile(output_module, ..)`
+    therefore has to keep `output_module` as given (escaping for make is `DepfileSpec::to_string`'s job, R17.3).  Rewriting it — turning
+    `\\` into `/` "for Windows", unconditionally — names a different file on every platform where `\\` is an ordinary character
+    (seeded change).  Both fields of the `DepfileSpec` literal are the setter's parameters after identity conversions only."""
+    prog = rep.prog
+    b = rep.need(next((x for p, x in prog.bodies.items() if p.endswith("Builder>::depfile") or p.endswith("Builder::depfile")), None), "Builder::depfile")
+    lits = [n for n in b.nodes if n["k"] == "Struct" and n.get("adt") == SPEC]
+    rep.need(lits, "the DepfileSpec literal in Builder::depfile")
+    pids = {p_.get("id"): p_.get("name") for p_ in b.params}
+    for lit in lits:
+        for f in lit["fs"]:
+            inner = _pure_wrappers(b, f["e"], set())
+            ok = inner.get("k") == "Local" and inner.get("id") in pids
+            rep.check(ok, "spec-field-unchanged:%s" % f["f"], "`%s` is parameter `%s`" % (f["f"], pids.get(inner.get("id"))) if ok else
+                      "`DepfileSpec::%s` is `%s`, not the caller's value: the depfile then names (or is written to) another path than the "
+                      "one that was configured" % (f["f"], b.canon(inner, 3)[:80]), b.loc(f["e"]))
